@@ -175,6 +175,104 @@ def register(T, repo):
                             lift_str(b.fields['lang'])), stmt.lineno)
     T.stmt_hooks[U + 'get_txt_pos_ml'] = ml_stmt_hook
 
+    # ---------------------- multi-language tail of tex2txt.tex2txt (C01/C12)
+    # mechanically lifted (front.lift_ml_tail): phrase replacement in the
+    # parts of the main language, then conversion of every part to 1-based
+    # positions.  Ghost `$mlrange`: the position range that EVERY part of
+    # EVERY list of the dictionary `ml` satisfies (with len(text) ==
+    # len(map)); it is changed only on the exit of a loop whose body
+    # contract has been proved for the generic key / part.
+    from pyvc import front as _front
+    fi_tail = _front.lift_ml_tail(repo)
+    if fi_tail is not None:
+        TT = 'yalafi.tex2txt.'
+
+        def tail_ghost(ex, st, mode, vals):
+            src = fresh_seq('str', 'src', st.assume)
+            return {'src': src, 'lo': 0, 'hi': zint(src.ln) - 1}
+
+        class MLResultS(Spec):
+            def __init__(self, G):
+                self.G = G
+
+            def check(self, ex, st, v, label, line=0):
+                rng = st.ghost.get('$mlrange')
+                if not isinstance(v, PyDict) or rng is None:
+                    ex.prove(st, label + ':ml-result-shape', False, line)
+                    return
+                ex.prove(st, label + ':parts-one-based-in-file', And(
+                    zint(rng[0]) == zint(self.G['lo']) + 1,
+                    zint(rng[1]) == zint(self.G['hi']) + 1), line)
+
+        def opts_spec():
+            return ObjS(TT + 'Options', {
+                'lang': OptS(StrS(name='lang')),
+                'repl': OptS(ListS(StrS(name='line'), None, 'repl'))})
+        from pyvc.contracts import OptS
+        c = T.add(FContract(
+            TT + 'tex2txt.<ml_tail>', ghosts=tail_ghost,
+            params=lambda G: {'toks': tm.OutList(G['src']),
+                              'opts': opts_spec(), 'parms': MLParmsS()},
+            result=lambda A: MLResultS(A)))
+
+        def part_ok(part, lo, hi):
+            if not (isinstance(part, TokList) and len(part.segs) == 2 and
+                    all(isinstance(sg, Single) for sg in part.segs)):
+                return False
+            txt, pos = part.segs[0].obj, part.segs[1].obj
+            if not (sym.is_str(txt) and isinstance(pos, SSeq)):
+                return False
+            return And(zint(seq_len(txt)) == zint(pos.ln),
+                       in_rng(pos, lo, hi))
+        # loop 0: for part in ml[main_lang] -- range unchanged
+        lp = c.loop(0)
+        lp.invs.append(('true', lambda E: True))
+        lp.body_post.append(('part-stays-consistent', lambda E0, E1: part_ok(
+            E1['part'], E1['lo'], E1['hi'])))
+        # loop 1: for lang in ml;  loop 2: for part in ml[lang]
+        lp2 = c.loop(2)
+        lp2.invs.append(('true', lambda E: True))
+        lp2.body_post.append(('part-becomes-one-based', lambda E0, E1: part_ok(
+            E1['part'], zint(E1['lo']) + 1, zint(E1['hi']) + 1)))
+
+        def inner_exit(E, st):
+            st.ghost['$inner_done'] = st.ghost.get('$inner_done', 0) + 1
+        lp2.on_exit = inner_exit
+        lp1 = c.loop(1)
+        lp1.invs.append(('true', lambda E: True))
+        # every key's list went through the inner loop exactly once
+        lp1.body_post.append(('inner-loop-ran-for-this-key', lambda E0, E1:
+                              bool(E1['$st'].ghost.get('$inner_done', 0) ==
+                                   E0['$st'].ghost.get('$inner_done', 0)
+                                   + 1)))
+
+        def outer_exit(E, st):
+            st.ghost['$mlrange'] = (zint(E['lo']) + 1, zint(E['hi']) + 1)
+        lp1.on_exit = outer_exit
+
+        # get_txt_pos_ml as seen from the tail: its result establishes the
+        # ghost range (lo, hi)
+        gc = T.get(U + 'get_txt_pos_ml')
+        prev_eff = gc.effects
+
+        def gml_effects(ex, st, A, prev_eff=prev_eff):
+            if prev_eff:
+                prev_eff(ex, st, A)
+            st.ghost['$mlrange'] = (A['lo'], A['hi'])
+        gc.effects = gml_effects
+
+        prev_di = T.dict_iter
+
+        def dict_iter(ex, st, d, prev_di=prev_di):
+            if d.tag == 'ml':
+                def mk(ex_, st_):
+                    k = fresh_seq('str', 'lang', st_.assume)
+                    st_.assume(d.has(ex_, st_, k))
+                    return k
+                return mk
+            return prev_di(ex, st, d) if prev_di else NotImplemented
+        T.dict_iter = dict_iter
+
     def dict_store_hook(ex, st, d, k, v, line, prev=T.dict_store_hook):
         if d.tag in ('ml', 'literal'):
             # ret[lang] = [[txt, pos]]: the stored parts keep the invariant
